@@ -1,13 +1,83 @@
 /-
 Property C08 — sublayouts are verified recursively and replaced by their summary.
-Model: InToto/Model/Verify.lean (`verifyAux` recursion through `Dir.sub`).
-(Interim: unbounded theorems in preparation.)
+Model: InToto/Model/Verify.lean (`resolveLinks`/`resolveSteps` = VerifySublayouts, called by
+`verifyAux` with itself (one unit of fuel less) as the recursive procedure; `Dir.sub`).
+The theorems below hold for EVERY recursive procedure `rec`, hence for the pipeline's own.
 -/
 import InToto.Model.Verify
+import InToto.Proofs.Sublayout
+import InToto.Proofs.PipeThresholds
+import InToto.Proofs.PipeSigs
 import InToto.Generated.Facts
 
 namespace InToto.C08
-open InToto InToto.Verify
+open InToto InToto.Json InToto.Schema InToto.Metadata InToto.Verify InToto.SubProofs
+
+/-- "verified like a root layout … and the parent then sees it as a link carrying the summary":
+    if the stage succeeds, every counted piece of evidence that is a layout was verified by the
+    recursive procedure — with the key the parent layout defines for that functionary, against the
+    directory `<step>.<key id prefix>` below the parent's, under the step's name — and the parent
+    continues with exactly the summary link that verification returned; plain links are kept -/
+theorem sublayout_verified_and_replaced (rec : Md → List (Str × Key) → Dir → Str → Acc → Result) (lay : TVal) (dir : Dir) (sn : Str)
+    (links : List (Str × Md)) (acc acc' : Acc) (res : List (Str × LinkView))
+    (h : resolveLinks rec lay dir sn links acc = (.ok res, acc')) :
+    res.map Prod.fst = links.map Prod.fst ∧
+    (∀ kid md, (kid, md) ∈ links → ∀ l, md.payload = .link l →
+        ∃ lv, linkViewOf md.payload = some lv ∧ (kid, lv) ∈ res) ∧
+    (∀ kid md, (kid, md) ∈ links → ∀ l, md.payload = .layout l →
+        ∃ a s, (rec md (subKeysOf lay kid) (dir.sub (sn ++ '.' :: first8 kid)) sn a).out = .ok s ∧
+          (kid, summaryView s) ∈ res) :=
+  resolveLinks_ok rec lay dir sn links acc acc' res h
+
+/-- the same over all steps of the layout -/
+theorem sublayouts_verified_all_steps (rec : Md → List (Str × Key) → Dir → Str → Acc → Result) (lay : TVal) (dir : Dir)
+    (ver : List (Step × List (Str × Md))) (acc acc' : Acc) (res : List (Step × List (Str × LinkView)))
+    (h : resolveSteps rec lay dir ver acc = (.ok res, acc')) :
+    res.map (fun x => x.1.name) = ver.map (fun x => x.1.name) ∧
+    ∀ st links, (st, links) ∈ ver → ∀ kid md, (kid, md) ∈ links → ∀ l, md.payload = .layout l →
+      ∃ a s ll, (rec md (subKeysOf lay kid) (dir.sub (st.name ++ '.' :: first8 kid)) st.name a).out = .ok s ∧
+        (st, ll) ∈ res ∧ (kid, summaryView s) ∈ ll :=
+  resolveSteps_ok rec lay dir ver acc acc' res h
+
+/-- "any failure inside a sublayout fails the whole verification": a sublayout whose verification
+    cannot succeed makes the stage — and with it the parent — fail -/
+theorem inner_failure_fails_parent (rec : Md → List (Str × Key) → Dir → Str → Acc → Result) (lay : TVal) (dir : Dir) (sn : Str)
+    (links : List (Str × Md)) (acc : Acc) (kid : Str) (md : Md) (l : TVal)
+    (hm : (kid, md) ∈ links) (hl : md.payload = .layout l)
+    (hf : ∀ a, (rec md (subKeysOf lay kid) (dir.sub (sn ++ '.' :: first8 kid)) sn a).out.isOk = false) :
+    (resolveLinks rec lay dir sn links acc).1.isOk = false :=
+  resolveLinks_inner_failure rec lay dir sn links acc kid md l hm hl hf
+
+/-- and the only way the stage can fail is a failing sublayout: its error is that sublayout's error -/
+theorem stage_error_is_inner_error (rec : Md → List (Str × Key) → Dir → Str → Acc → Result) (lay : TVal) (dir : Dir)
+    (ver : List (Step × List (Str × Md))) (acc acc' : Acc) (e : String)
+    (h : resolveSteps rec lay dir ver acc = (.err e, acc')) :
+    ∃ st links kid md l a, (st, links) ∈ ver ∧ (kid, md) ∈ links ∧ md.payload = .layout l ∧
+      (rec md (subKeysOf lay kid) (dir.sub (st.name ++ '.' :: first8 kid)) st.name a).out = .err e :=
+  resolveSteps_err rec lay dir ver acc acc' e h
+
+/-- "a layout offered by a functionary who is not authorized for the step is never followed":
+    the stage consults the recursive procedure only on the evidence it is handed — whatever it would
+    do on any other layout is irrelevant — … -/
+theorem only_counted_evidence_is_followed (rec rec' : Md → List (Str × Key) → Dir → Str → Acc → Result) (lay : TVal) (dir : Dir)
+    (ver : List (Step × List (Str × Md))) (acc : Acc)
+    (h : ∀ st links, (st, links) ∈ ver → ∀ kid md, (kid, md) ∈ links → ∀ ks d s a, rec md ks d s a = rec' md ks d s a) :
+    resolveSteps rec lay dir ver acc = resolveSteps rec' lay dir ver acc :=
+  resolveSteps_congr rec rec' lay dir ver acc h
+
+/-- … and the evidence it is handed for a step is what the threshold stage counted, all of which is
+    authorized for that step and validly signed -/
+theorem counted_evidence_is_authorized (W : World) (layout : TVal) (st : Step) (roots : List Str) (links v : List (Str × Md))
+    (h : verifiedLinks W layout st roots links = .ok v) :
+    ∀ x ∈ v, x ∈ links ∧ PipeProofs.Authorized W layout st roots x.1 x.2 :=
+  PipeProofs.verifiedLinks_sound W layout st roots links v (PipeProofs.mdVerify_no_panic W) h
+
+/-- without layout evidence the stage runs nothing and changes nothing -/
+theorem no_sublayouts_no_effects (rec : Md → List (Str × Key) → Dir → Str → Acc → Result) (lay : TVal) (dir : Dir)
+    (ver : List (Step × List (Str × Md))) (acc : Acc)
+    (h : ∀ st links, (st, links) ∈ ver → ∀ kid md, (kid, md) ∈ links → ∃ l, md.payload = .link l) :
+    (resolveSteps rec lay dir ver acc).2 = acc :=
+  resolveSteps_no_sublayouts rec lay dir ver acc h
 
 /-- the sublayout link directory is `<step>.<first 8 characters of the key id>` below the parent's -/
 theorem sublayout_dir_name :
